@@ -11,7 +11,7 @@ import (
 func init() {
 	register(Property{
 		ID: "C18",
-		Explanation: "Decided statically on constants and literals: T1/T2 the partialstruct templates are fully bound and their skeletons parse (the field template as a struct field list); C17.R1 the generated DeepCopyAs starts with the nil guard; T3 struct-tag and doc text reach the generated struct only behind Comment, as a quoted literal, or - tags - verbatim between the template's backquotes, never through snippet.ID (a reference parser that splits at '.'); R1 the rendering call is dominated by the struct assertion having succeeded and the origin being known, and both failure edges return a non-nil fmt.Errorf; R2 the field list and the copy body skip exactly the same fields (same Omit map, same key f.Name()), fields are emitted in index order over the struct's own NumFields(), and the field type is rendered by ID(f.Type()) (type printer, imports registered); R4 the origin is taken from the declaration spec whose name matches the generated type (no last-wins over a grouped declaration). R3 the obligations of the shared field-copy helper (C17.R3/R7) hold; R5 no schedule-dependent order source in the generator. NOT decided: that the compiled struct equals origin minus omitted fields and the copy semantics (needs compilation/execution).",
+		Explanation: "Decided statically on constants and literals: T1/T2 the partialstruct templates are fully bound and their skeletons parse (the field template as a struct field list); C17.R1 the generated DeepCopyAs starts with the nil guard; T3 struct-tag and doc text reach the generated struct only behind Comment, as a quoted literal, or - tags - verbatim between the template's backquotes, never through snippet.ID (a reference parser that splits at '.'); R1 the rendering call is dominated by the struct assertion having succeeded and the origin being known, and both failure edges return a non-nil fmt.Errorf; R2 the field list and the copy body skip exactly the same fields (same Omit map, same key f.Name()), fields are emitted in index order over the struct's own NumFields(), and the field type is rendered by ID(f.Type()) (type printer, imports registered); R4 the origin is taken from the declaration spec whose name matches the generated type (no last-wins over a grouped declaration). R3 the obligations of the shared field-copy helper (C17.R3/R7) hold; R5 no schedule-dependent order source in the generator. R2 also: every store into the Omit set stores the constant true (the field list tests presence, the copy body the value); R6 the import block binds every registered package under the name the rendered field types use (C03.R2's printer rule). NOT decided: that the compiled struct equals origin minus omitted fields and the copy semantics (needs compilation/execution).",
 		Assumptions: commonAssumptions,
 		Run:         runC18,
 	})
@@ -42,6 +42,10 @@ func runC18(p *core.Program, r *core.Report) {
 		}
 	}
 	generatorOrderSources(p, r, "R5", "devpkg/partialstruct")
+	// R6: "foreign types correctly imported" - every package the type printer registered is
+	// imported under the very name the rendered field types use (C03.R2's printer rule)
+	r.Floor("R6", 2)
+	importBlockRule(p, r, "R6")
 }
 
 func c18R1(p *core.Program, r *core.Report) {
@@ -158,6 +162,42 @@ func c18R2(p *core.Program, r *core.Report, sites []templateSite) {
 		})
 	}
 	r.Check(n >= 2, rule, gen, "both the field list and the copy body consult the Omit set", gen.Node().Pos(), itoa(int64(n))+" lookups", "the Omit set is not consulted by both the field list and the copy helper's Skip callback: an omitted field is still copied (does not compile) or a kept field is not copied")
+	// Omit is a set: the field list tests presence, the copy body tests the value; the two agree only
+	// while every stored value is the constant true (a present-but-false entry drops the field from
+	// the struct but keeps its copy statement, which does not compile)
+	nst := 0
+	for _, f := range p.Funcs() {
+		if core.RelPkg(f.Pkg.PkgPath) != "devpkg/partialstruct" {
+			continue
+		}
+		info := f.Info()
+		ast.Inspect(f.Body, func(nd ast.Node) bool {
+			if lit, ok := nd.(*ast.FuncLit); ok && lit != f.Lit {
+				return false
+			}
+			as, ok := nd.(*ast.AssignStmt)
+			if !ok {
+				return true
+			}
+			for i, l := range as.Lhs {
+				ix, ok := ast.Unparen(l).(*ast.IndexExpr)
+				if !ok || i >= len(as.Rhs) {
+					continue
+				}
+				if fld := core.FieldOf(info, ix.X); fld == nil || fld.Name() != "Omit" {
+					continue
+				}
+				nst++
+				tv := info.Types[as.Rhs[i]]
+				r.Check(tv.Value != nil && tv.Value.String() == "true" && as.Tok == token.ASSIGN, rule, f, "the Omit set only ever stores true: "+core.ExprStr(as), as.Pos(), "constant true",
+					"an entry of the Omit set can be present with a value other than true: the field list (presence test) drops the field while the copy body (value test) still copies it, so the generated code refers to a field the generated struct does not have")
+			}
+			return true
+		})
+	}
+	if nst == 0 {
+		r.Anchor(rule, "store into the Omit set in devpkg/partialstruct")
+	}
 	// fieldType is ID(f.Type()) ; fieldName is ID(f.Name())
 	okType := false
 	for _, s := range sites {
